@@ -19,6 +19,7 @@ mod rng;
 mod run;
 mod shrink;
 mod simbin;
+mod simmiri;
 mod simenv;
 mod world;
 
